@@ -37,7 +37,7 @@ func init() {
 		MinEvals:        floor(90000, 1500000),
 		MinDistinct:     floor(4000, 50000),
 		RequiredCells: func(string) []string {
-			return []string{"purity/parse-print/history", "purity/parse-print/concurrent", "sel/accepted", "sel/rejected", "sel/model-accepts", "sel/model-rejects", "sel/undecided", "sel/normalised", "sel/mutated", "sel/exhaustive", "sel/prefix-suffix",
+			return []string{"purity/parse-print/history", "purity/parse-print/concurrent", "sel/quoted-delimiters", "sel/dot-field-alphabet", "sel/accepted", "sel/rejected", "sel/model-accepts", "sel/model-rejects", "sel/undecided", "sel/normalised", "sel/mutated", "sel/exhaustive", "sel/prefix-suffix",
 				"pol/ipld-roundtrip", "pol/dagjson-roundtrip", "pol/mutated-accepted", "pol/mutated-rejected", "pol/constructor-roundtrip"}
 		},
 	})
@@ -467,6 +467,34 @@ func runC14(w *mon.W) {
 	}
 	for _, s := range []string{"", "a", "[0]", `"`, "?", "a.b", " .a"} {
 		c14Selector(w, s, corpus, "exhaustive")
+	}
+	// quoted keys holding the characters that delimit segments: .["<body>"] for every body of
+	// length <=4 over { a ] [ . ? : space }, alone and followed by another segment; and dot
+	// fields spelled with characters outside [a-zA-Z0-9_]
+	{
+		qAlpha := []string{"a", "]", "[", ".", "?", ":", " "}
+		for i, body := range allStrings4(qAlpha, 4) {
+			if !w.Mine(i) {
+				continue
+			}
+			c14Selector(w, `.["`+body+`"]`, corpus, "exhaustive")
+			if i%3 == 0 {
+				c14Selector(w, `.a["`+body+`"]?.b`, corpus, "exhaustive")
+				c14Selector(w, `.["`+body+`"][0]`, corpus, "exhaustive")
+			}
+			w.Cover("sel/quoted-delimiters")
+		}
+		dAlpha := []string{"a", "-", "é", " ", "_", "0", "$", "A"}
+		for i, body := range allStrings4(dAlpha, 3) {
+			if !w.Mine(i) || body == "" {
+				continue
+			}
+			c14Selector(w, "."+body, corpus, "exhaustive")
+			if i%3 == 0 {
+				c14Selector(w, ".x."+body+"[0]", corpus, "exhaustive")
+			}
+			w.Cover("sel/dot-field-alphabet")
+		}
 	}
 
 	// (a) + (b)
